@@ -163,6 +163,12 @@ def layer_a(chk, chunk):
     mine = list(enumerate(progs))[chunk::NCHUNK]
     n_ok = cfg_obligations(chk, e, mine, L)
     chk.record(f"CFGBuilder.build:programs-explored[chunk {chunk}]", n_ok >= 10, str(n_ok), kind="reachability")
+    if chunk == 0:
+        # recorded deviation (open finding C03-walrus-hoisted-before-earlier-operands): kept as obligations so
+        # that the finding is re-observed on every run and a DIFFERENT misbehaviour of the walrus is reported
+        src_of = lambda body: "def f():\n" + "\n".join("    " + l for l in S.PROLOGUE + body + S.EPILOGUE) + "\n"  # noqa: E731
+        known = [(9000, src_of(["x = 1", "y = x + (x := 5)", "e(y)"])), (9001, src_of(["y = e(1) + (x := e(2))", "e(y)"]))]
+        cfg_obligations(chk, e, known, L, what="the-CFG-executes-exactly-Python's-trace-and-result(known-deviation:walrus)")
     chk.use_engine(e)
 
 
